@@ -472,11 +472,48 @@ def base_namespace():
             "__pyvc_loop__": _mkloop}
 
 
+def resolve_loop_selectors(modname, qualname, loop_specs):
+    """Loop contracts may be keyed by ordinal (source order of `for` statements) or by a selector that survives
+    harmless edits: "outer:NAME" / "inner:NAME" = the outermost / innermost `for` whose body assigns NAME (or
+    calls NAME.append/...); "outer:NAME!OTHER" additionally requires that OTHER is not assigned in the loop.  A selector that matches no loop drops its contract (the code no longer has that
+    loop; whatever replaces it is executed as it stands)."""
+    if not loop_specs or not any(isinstance(k, str) for k in loop_specs):
+        return loop_specs
+    node = module(modname).find(qualname)
+    found = []      # (ordinal, depth, assigned names)
+
+    class V(ast.NodeVisitor):
+        def __init__(self):
+            self.k, self.depth = 0, 0
+
+        def visit_For(self, n):
+            found.append((self.k, self.depth, _assigned_names(n.body)))
+            self.k += 1
+            self.depth += 1
+            self.generic_visit(n)
+            self.depth -= 1
+    V().visit(node)
+    out = {}
+    for key, spec in loop_specs.items():
+        if not isinstance(key, str):
+            out.setdefault(key, spec)
+            continue
+        how, name = key.split(":", 1)
+        name, _, excl = name.partition("!")       # "NAME!OTHER": assigns NAME but not OTHER
+        cands = [(k, d) for (k, d, names) in found if name in names and not (excl and excl in names)]
+        if not cands:
+            continue
+        k = min(cands, key=lambda c: (c[1], c[0]))[0] if how == "outer" else max(cands, key=lambda c: (c[1], c[0]))[0]
+        out.setdefault(k, spec)
+    return out
+
+
 def compile_into(ns, modname, qualname, loop_specs=None, label=None):
     """Define modname:qualname inside the shared namespace `ns`; returns (object, FuncInfo).
     loop_specs: {ordinal: spec} for the loops that carry an invariant; they are registered
     under `label` in ns['__pyvc_loopspecs__'] and looked up by the engine at run time."""
     label = label or (modname.split(".")[-1] + "." + qualname)
+    loop_specs = resolve_loop_selectors(modname, qualname, loop_specs)
     code, info, name = extract(modname, qualname, inv_loops=list((loop_specs or {}).keys()),
                                label=label)
     for k, v in base_namespace().items():
